@@ -62,7 +62,9 @@ func (e c15AspEnt) str() string {
 // are edited through the API and the fresh server of the metamorphic oracle is configured from
 // these lists, never from the edited set objects.
 type c15Stmt struct {
-	comms        []uint32 // community-set members (empty: no condition)
+	hasComm      bool
+	comms        []uint32 // community-set members
+	opts         [4]int   // match option per set kind (0 community, 1 neighbor, 2 prefix, 3 as-path): 0 ANY, 1 ALL, 2 INVERT
 	anyPeer      bool
 	peers        []int // neighbor-set members
 	hasPfx       bool
@@ -97,11 +99,11 @@ func (p *c15Pol) line(dir string) string {
 	var sb strings.Builder
 	fmt.Fprintf(&sb, "pol %s %d %d", dir, c15B(p.dflt), len(p.stmts))
 	for _, s := range p.stmts {
-		fmt.Fprintf(&sb, " %d", len(s.comms))
+		fmt.Fprintf(&sb, " %d %d %d", c15B(s.hasComm), s.opts[0], len(s.comms))
 		for _, c := range s.comms {
 			fmt.Fprintf(&sb, " %d", c)
 		}
-		fmt.Fprintf(&sb, " %d %d", c15B(s.anyPeer), len(s.peers))
+		fmt.Fprintf(&sb, " %d %d %d", c15B(s.anyPeer), s.opts[1], len(s.peers))
 		for _, x := range s.peers {
 			fmt.Fprintf(&sb, " %d", x)
 		}
@@ -111,11 +113,11 @@ func (p *c15Pol) line(dir string) string {
 		} else {
 			fmt.Fprintf(&sb, " 1 %d %d", s.lenOp-1, s.lenN)
 		}
-		fmt.Fprintf(&sb, " %d %d", c15B(s.hasPfx), len(s.pfx))
+		fmt.Fprintf(&sb, " %d %d %d", c15B(s.hasPfx), s.opts[2], len(s.pfx))
 		for _, e := range s.pfx {
 			fmt.Fprintf(&sb, " %d %d %d %d", e.base, e.plen, e.lo, e.hi)
 		}
-		fmt.Fprintf(&sb, " %d %d", c15B(s.hasAsp), len(s.asp))
+		fmt.Fprintf(&sb, " %d %d %d", c15B(s.hasAsp), s.opts[3], len(s.asp))
 		for _, e := range s.asp {
 			fmt.Fprintf(&sb, " %d %d", e.mode, e.asn)
 		}
@@ -136,13 +138,15 @@ func c15ParsePol(f []string) (string, c15Pol) {
 	i := 4
 	for k := n(3); k > 0; k-- {
 		s := c15Stmt{}
+		s.hasComm, s.opts[0] = n(i) == 1, n(i+1)
+		i += 2
 		for j := n(i); j > 0; j-- {
 			i++
 			s.comms = append(s.comms, uint32(n(i)))
 		}
 		i++
-		s.anyPeer = n(i) == 1
-		i++
+		s.anyPeer, s.opts[1] = n(i) == 1, n(i+1)
+		i += 2
 		for j := n(i); j > 0; j-- {
 			i++
 			s.peers = append(s.peers, n(i))
@@ -153,15 +157,15 @@ func c15ParsePol(f []string) (string, c15Pol) {
 			s.lenOp, s.lenN = n(i+8)+1, n(i+9)
 		}
 		i += 10
-		s.hasPfx = n(i) == 1
-		i++
+		s.hasPfx, s.opts[2] = n(i) == 1, n(i+1)
+		i += 2
 		for j := n(i); j > 0; j-- {
 			s.pfx = append(s.pfx, c15PfxEnt{base: uint32(n(i + 1)), plen: n(i + 2), lo: n(i + 3), hi: n(i + 4)})
 			i += 4
 		}
 		i++
-		s.hasAsp = n(i) == 1
-		i++
+		s.hasAsp, s.opts[3] = n(i) == 1, n(i+1)
+		i += 2
 		for j := n(i); j > 0; j-- {
 			s.asp = append(s.asp, c15AspEnt{mode: n(i + 1), asn: uint32(n(i + 2))})
 			i += 2
@@ -287,7 +291,7 @@ func (cw *c15World) definedSet(tag string, i, kind int, s c15Stmt) *api.DefinedS
 func c15HasSet(s c15Stmt, kind int) bool {
 	switch kind {
 	case 0:
-		return len(s.comms) > 0
+		return s.hasComm
 	case 1:
 		return !s.anyPeer
 	case 2:
@@ -307,7 +311,7 @@ func (cw *c15World) apiPolicy(name string, tag string, pol c15Pol) (*api.Policy,
 			}
 			ds := cw.definedSet(tag, i, kind, s)
 			sets = append(sets, ds)
-			ms := &api.MatchSet{Name: ds.Name, Type: api.MatchSet_TYPE_ANY}
+			ms := &api.MatchSet{Name: ds.Name, Type: []api.MatchSet_Type{api.MatchSet_TYPE_ANY, api.MatchSet_TYPE_ALL, api.MatchSet_TYPE_INVERT}[s.opts[kind]]}
 			switch kind {
 			case 0:
 				st.Conditions.CommunitySet = ms
@@ -526,7 +530,7 @@ func c15SameButSets(p, q c15Pol) bool {
 				return false
 			}
 		}
-		if (a.hasPfx && (len(a.pfx) == 0 || len(b.pfx) == 0)) || (a.hasAsp && (len(a.asp) == 0 || len(b.asp) == 0)) || (!a.anyPeer && (len(a.peers) == 0 || len(b.peers) == 0)) {
+		if a.opts != b.opts {
 			return false
 		}
 	}
@@ -575,14 +579,16 @@ func c15GenStmt(r *vRand, d int, nPeers int) c15Stmt {
 	switch x := r.intn(100); {
 	case x < 25:
 	case x < 75:
-		s.comms = []uint32{c15Tags[r.intn(len(c15Tags))]}
+		s.hasComm, s.comms = true, []uint32{c15Tags[r.intn(len(c15Tags))]}
 	case x < 90:
 		p := r.perm(len(c15Tags))
-		s.comms = []uint32{c15Tags[p[0]], c15Tags[p[1]]}
+		s.hasComm, s.comms = true, []uint32{c15Tags[p[0]], c15Tags[p[1]]}
 	default:
 		// a community an earlier statement of the same direction may have added
-		s.comms = []uint32{uint32(0xfffb0001+d*0x10000) + uint32(r.intn(2))}
+		s.hasComm, s.comms = true, []uint32{uint32(0xfffb0001+d*0x10000) + uint32(r.intn(2))}
 	}
+	// match options: any / all / invert (neighbor and prefix sets: any / invert)
+	s.opts = [4]int{r.pick(0, 0, 0, 0, 1, 2, 2), r.pick(0, 0, 0, 0, 2), r.pick(0, 0, 0, 2), r.pick(0, 0, 0, 1, 2, 2)}
 	if !s.anyPeer {
 		for _, i := range r.perm(nPeers)[:1+r.intn(nPeers-1)] {
 			s.peers = append(s.peers, i)
@@ -593,13 +599,13 @@ func c15GenStmt(r *vRand, d int, nPeers int) c15Stmt {
 		// a condition on an attribute UpdatePathAttrs rewrites toward eBGP peers
 		s.lenOp, s.lenN = 1+r.intn(3), 1+r.intn(3)
 		if r.chance(50) {
-			s.comms = nil
+			s.hasComm, s.comms = false, nil
 		}
 	}
 	if r.chance(35) {
 		s.hasPfx, s.pfx = true, c15GenPfxSet(r)
 		if r.chance(50) {
-			s.comms = nil
+			s.hasComm, s.comms = false, nil
 		}
 	}
 	if r.chance(20) {
@@ -637,8 +643,9 @@ func c15CloneStmt(s c15Stmt) c15Stmt {
 	return s
 }
 
-// c15EditSet changes the members of one defined set of statement s (add a member, drop one, or
-// both), keeping the set non-empty. Returns false when s has no set.
+// c15EditSet changes the members of one defined set of statement s: add a member, drop one
+// (the LAST one included), both, or drop every member at once; an empty set is usually re-filled.
+// Returns false when s has no set.
 func c15EditSet(r *vRand, d int, nPeers int, s *c15Stmt) bool {
 	var kinds []int
 	for kind := 0; kind < 4; kind++ {
@@ -655,6 +662,36 @@ func c15EditSet(r *vRand, d int, nPeers int, s *c15Stmt) bool {
 		kind = 2
 	}
 	add, drop := r.chance(70), r.chance(40)
+	size := []int{len(s.comms), len(s.peers), len(s.pfx), len(s.asp)}[kind]
+	// Not generated: emptying a prefix-set matched with INVERT. PrefixCondition.Evaluate answers
+	// false when the set's address family differs from the route's, and an empty set has the
+	// family of its last member if it was emptied by removals but none if it was created or
+	// replaced empty — so in-place emptying and a fresh configuration disagree (reported as a
+	// finding; C10's model records the family rule as existing behaviour).
+	noEmpty := kind == 2 && s.opts[2] == 2
+	switch {
+	case size == 0:
+		add, drop = r.chance(80), false
+	case noEmpty && size == 1:
+		drop = false
+	case !noEmpty && r.chance(18):
+		// empty the set
+		switch kind {
+		case 0:
+			s.comms = nil
+		case 1:
+			s.peers = nil
+		case 2:
+			s.pfx = nil
+		default:
+			s.asp = nil
+		}
+		return true
+	case size == 1 && drop:
+		// removing the last member leaves an empty set: not together with an append
+		add = false
+		drop = r.chance(50)
+	}
 	switch kind {
 	case 0:
 		if add {
@@ -667,7 +704,7 @@ func c15EditSet(r *vRand, d int, nPeers int, s *c15Stmt) bool {
 				s.comms = append(s.comms, c)
 			}
 		}
-		if drop && len(s.comms) > 1 {
+		if drop && len(s.comms) > 0 {
 			k := r.intn(len(s.comms))
 			s.comms = append(s.comms[:k:k], s.comms[k+1:]...)
 		}
@@ -682,7 +719,7 @@ func c15EditSet(r *vRand, d int, nPeers int, s *c15Stmt) bool {
 				s.peers = append(s.peers, c)
 			}
 		}
-		if drop && len(s.peers) > 1 {
+		if drop && len(s.peers) > 0 {
 			k := r.intn(len(s.peers))
 			s.peers = append(s.peers[:k:k], s.peers[k+1:]...)
 		}
@@ -706,7 +743,7 @@ func c15EditSet(r *vRand, d int, nPeers int, s *c15Stmt) bool {
 				s.pfx = append(s.pfx, c)
 			}
 		}
-		if drop && len(s.pfx) > 1 {
+		if drop && len(s.pfx) > 0 {
 			k := r.intn(len(s.pfx))
 			s.pfx = append(s.pfx[:k:k], s.pfx[k+1:]...)
 		}
@@ -721,7 +758,7 @@ func c15EditSet(r *vRand, d int, nPeers int, s *c15Stmt) bool {
 				s.asp = append(s.asp, c)
 			}
 		}
-		if drop && len(s.asp) > 1 {
+		if drop && len(s.asp) > 0 {
 			k := r.intn(len(s.asp))
 			s.asp = append(s.asp[:k:k], s.asp[k+1:]...)
 		}
@@ -1488,10 +1525,10 @@ var c15CorpusPeers = []string{
 var c15Corpus = [][]string{
 	// defect 1 (fixed): AddDefinedSet{Replace} left the statements evaluating the old neighbor set
 	append(append([]string{}, c15CorpusPeers...),
-		"pol imp 1 1 0 0 1 0 0 0 0 0 0 0 2 0 0 0 0 0 0 0", // reject everything from peer 0
+		"pol imp 1 1 0 0 0 0 0 1 0 0 0 0 0 0 0 2 0 0 0 0 0 0 0 0 0", // reject everything from peer 0
 		"up 0", "up 1", "up 2",
 		"polmode 2",
-		"pol imp 1 1 0 0 1 1 0 0 0 0 0 0 2 0 0 0 0 0 0 0", // neighbor set edited in place: reject from peer 1 instead
+		"pol imp 1 1 0 0 0 0 0 1 1 0 0 0 0 0 0 2 0 0 0 0 0 0 0 0 0", // neighbor set edited in place: reject from peer 1 instead
 		"ann 0 0 0 1 0 0 0 0 0 0 0 0 0 1 2 1 65001",
 		"ann 1 1 0 2 0 0 0 0 0 0 0 0 0 1 2 1 65002",
 		"check", "fresh"),
@@ -1500,13 +1537,13 @@ var c15Corpus = [][]string{
 		"up 0", "up 2",
 		"ann 0 0 0 1 0 0 0 0 0 0 0 0 1 4294770689 1 2 1 65001",
 		"check",
-		"pol exp 1 1 1 4294770689 1 0 0 0 0 0 0 0 2 0 0 0 0 0 0 0", // reject 65533:1 toward everybody
+		"pol exp 1 1 1 0 1 4294770689 1 0 0 0 0 0 0 0 0 2 0 0 0 0 0 0 0 0 0", // reject 65533:1 toward everybody
 		"refresh 2",
 		"check", "fresh"),
 	// defect 3 (fixed): export policy on as-path-length >= 3, old best (length 2, 3 as sent) was
 	// sent, new best (length 1) is rejected, the raw old was rejected too -> no withdraw
 	append(append([]string{}, c15CorpusPeers...),
-		"pol exp 0 1 0 1 0 0 0 0 0 0 0 1 1 1 3 0 0 0 0",
+		"pol exp 0 1 0 0 0 1 0 0 0 0 0 0 0 0 1 1 1 3 0 0 0 0 0 0",
 		"up 0", "up 1", "up 2",
 		"ann 0 0 0 1 1 100 0 0 0 0 0 0 0 1 2 2 65001 100",
 		"check",
@@ -1516,13 +1553,13 @@ var c15Corpus = [][]string{
 	// AddDefinedSet without replace, a second mask-length range for the SAME prefix; the import
 	// policy rejects what the set matches; the older range must keep matching after soft reset in
 	append(append([]string{}, c15CorpusPeers...),
-		"pol imp 1 1 0 1 0 0 0 0 0 0 0 2 0 0 0 1 1 167772160 8 16 16 0 0",
+		"pol imp 1 1 0 0 0 1 0 0 0 0 0 0 0 0 2 0 0 0 1 0 1 167772160 8 16 16 0 0 0",
 		"up 0", "up 1", "up 2",
 		"ann 0 2 0 1 0 0 0 0 0 0 0 0 0 1 2 1 65001", // 10.3.0.0/16: rejected
 		"ann 1 0 0 2 0 0 0 0 0 0 0 0 0 1 2 1 65002", // 10.1.0.0/24: accepted
 		"check",
 		"polmode 2",
-		"pol imp 1 1 0 1 0 0 0 0 0 0 0 2 0 0 0 1 2 167772160 8 16 16 167772160 8 24 24 0 0",
+		"pol imp 1 1 0 0 0 1 0 0 0 0 0 0 0 0 2 0 0 0 1 0 2 167772160 8 16 16 167772160 8 24 24 0 0 0",
 		"softinall",
 		"check", "fresh"),
 	// class "several paths per prefix in the Adj-RIB-In" (ADD-PATH receive): path-id 1 is
@@ -1539,8 +1576,31 @@ var c15Corpus = [][]string{
 		"ann 1 1 2 3 0 0 2 0 0 0 0 0 1 4294770689 1 2 1 65002",
 		"ann 1 1 1 4 0 0 1 0 0 0 0 0 0 1 2 2 65002 65000",
 		"check",
-		"pol imp 1 1 1 4294770689 1 0 0 0 0 0 0 0 2 0 0 0 0 0 0 0",
+		"pol imp 1 1 1 0 1 4294770689 1 0 0 0 0 0 0 0 0 2 0 0 0 0 0 0 0 0 0",
 		"softin 0", "softin 1",
+		"check", "fresh"),
+	// class "defined set emptied in place and re-filled": an import statement rejects what a
+	// community set (ANY) matches, an export statement accepts what another (INVERT) does not
+	// match; the last member of each is removed in place (the sets are then EMPTY: ANY matches
+	// nothing, INVERT everything), soft reset; then both are re-filled, soft reset
+	append(append([]string{}, c15CorpusPeers...),
+		"pol imp 1 1 1 0 1 4294770689 1 0 0 0 0 0 0 0 0 2 0 0 0 0 0 0 0 0 0",
+		"pol exp 0 1 1 2 1 4294770690 1 0 0 0 0 0 0 0 0 1 0 0 0 0 0 0 0 0 0",
+		"up 0", "up 1", "up 2",
+		"ann 0 0 0 1 0 0 0 0 0 0 0 0 1 4294770689 1 2 1 65001",
+		"ann 1 1 0 2 0 0 0 0 0 0 0 0 1 4294770690 1 2 1 65002",
+		"check",
+		"polmode 2",
+		"pol imp 1 1 1 0 0 1 0 0 0 0 0 0 0 0 2 0 0 0 0 0 0 0 0 0",
+		"polmode 2",
+		"pol exp 0 1 1 2 0 1 0 0 0 0 0 0 0 0 1 0 0 0 0 0 0 0 0 0",
+		"softbothall",
+		"check", "fresh",
+		"polmode 2",
+		"pol imp 1 1 1 0 1 4294770689 1 0 0 0 0 0 0 0 0 2 0 0 0 0 0 0 0 0 0",
+		"polmode 2",
+		"pol exp 0 1 1 2 1 4294770690 1 0 0 0 0 0 0 0 0 1 0 0 0 0 0 0 0 0 0",
+		"softbothall",
 		"check", "fresh"),
 }
 
